@@ -47,25 +47,26 @@ theorem FLe.pushFunction (f : Facts) (name : Bytes) (np parent scope : Nat) :
 
 def sigKey3 (g : FnSig) : Bytes × Nat × Nat := (g.name, g.id, g.arity)
 
-theorem retPass_keys3 (env : Env) : ∀ (bodies : List Block) (i : Nat) (sigs : List FnSig) (ch : Bool),
-    (retPass env bodies i sigs ch).1.map sigKey3 = sigs.map sigKey3
+theorem retPass_keys3 (env : Env) (makes : List Bytes) :
+    ∀ (bodies : List (List Param × Block)) (i : Nat) (sigs : List FnSig) (ch : Bool),
+    (retPass env makes bodies i sigs ch).1.map sigKey3 = sigs.map sigKey3
   | [], _, _, _ => by simp [retPass]
-  | body :: bs, i, sigs, ch => by
+  | (ps, body) :: bs, i, sigs, ch => by
       simp only [retPass]
       split
       · split
-        · exact retPass_keys3 env bs _ _ _
-        · rw [retPass_keys3 env bs]
+        · exact retPass_keys3 env makes bs _ _ _
+        · rw [retPass_keys3 env makes bs]
           apply modifyAt_map_key; intro a; rfl
-      · exact retPass_keys3 env bs _ _ _
+      · exact retPass_keys3 env makes bs _ _ _
 
-theorem retIter_keys3 (env : Env) (bodies : List Block) : ∀ (n : Nat) (sigs : List FnSig),
-    (retIter env bodies n sigs).map sigKey3 = sigs.map sigKey3
+theorem retIter_keys3 (env : Env) (makes : List Bytes) (bodies : List (List Param × Block)) :
+    ∀ (n : Nat) (sigs : List FnSig), (retIter env makes bodies n sigs).map sigKey3 = sigs.map sigKey3
   | 0, _ => by simp [retIter]
   | n + 1, sigs => by
       simp only [retIter]
       split
-      · rw [retIter_keys3 env bodies n, retPass_keys3]
+      · rw [retIter_keys3 env makes bodies n, retPass_keys3]
       · rw [retPass_keys3]
 
 theorem keys3_names {l l' : List FnSig} (h : l'.map sigKey3 = l.map sigKey3) :
